@@ -207,9 +207,14 @@ def check(ctx: Ctx) -> None:
         from ..util import arg as _arg
         rparams = [p_ for p_ in repo.func(f"{GB}.Channel.reconfigure").params() if p_ != "self"]
         kv = {}
+        rfn = repo.func(f"{GB}.Channel.reconfigure").node
+        rnames = [a_.arg for a_ in rfn.args.posonlyargs + rfn.args.args]
+        rdefaults = dict(zip(rnames[len(rnames) - len(rfn.args.defaults):], rfn.args.defaults))
         for nm in (P2, P3):
             a_ = _arg(rc[0], rparams.index(nm) if nm in rparams else None, nm)
-            if a_ is not None:
+            if a_ is None and isinstance(rdefaults.get(nm), ast.Constant):
+                kv[nm] = rdefaults[nm].value   # argument omitted: the parameter's literal default applies
+            elif a_ is not None:
                 kv[nm] = repo.fold_in(a_, fa)
         ob.site(fa, rc[0], "rsync channel coercion (False, False)", kw=kv)
         if (kv.get(P2), kv.get(P3)) != (False, False):
